@@ -175,7 +175,7 @@ def bounded_verdicts(tier, seed, check_report=False, name="C01.verdict-vs-docume
     b = Bounded(name, "module trees flat/deep/prefix/deeper (4-11 modules); import relations: all with <=1 (quick) / <=2 (thorough) imports between unrelated "
                 "modules plus 40/400 random larger ones per tree; per graph 6 (quick) / 12 random subject/object choices (1-2 per side, name or "
                 "sub-module filters, pairwise unrelated) x 12 shapes, plus the two 'anything' aliases")
-    jobs = [(t, r, s, 6 if tier == "quick" else 12, check_report, 2) for (t, r, s) in _chunks(tier, seed, ["flat", "deep", "prefix"] + (["deeper"] if tier != "quick" else []))]
+    jobs = [(t, r, s, 6 if tier == "quick" else 12, check_report, 2) for (t, r, s) in _chunks(tier, seed, ["flat", "deep", "prefix", "nestedprefix"] + (["deeper"] if tier != "quick" else []))]
     _merge(b, pmap(_verdict_chunk, jobs))
     return b.result()
 
@@ -291,7 +291,7 @@ def bounded_algebra(tier, seed):
                 "per graph 4 (quick) / 10 random subject/object choices, related ones included; laws: duality, negation, decomposition, anything-alias, monotonicity under one added import")
     rng = random.Random(seed)
     jobs = []
-    for tree in ["flat", "deep", "prefix"] + (["deeper"] if tier != "quick" else []):
+    for tree in ["flat", "deep", "prefix", "nestedprefix"] + (["deeper"] if tier != "quick" else []):
         mods = TREES[tree]
         rels = import_relations(mods, rng, n_random=(40 if tier == "quick" else 400), exhaustive_upto=1, include_related=True)
         rng.shuffle(rels)
@@ -400,7 +400,7 @@ def bounded_expansion(tier, seed):
                 "(anchored name, prefix, alternation, character class, suffix, unmatched) on either side x 12 shapes; batches of 1-3 subjects/objects incl. related modules")
     rng = random.Random(seed)
     jobs = []
-    for tree in ["flat", "deep", "prefix"]:
+    for tree in ["flat", "deep", "prefix", "nestedprefix"]:
         mods = TREES[tree]
         rels = import_relations(mods, rng, n_random=(30 if tier == "quick" else 300), exhaustive_upto=1, include_related=True)
         rng.shuffle(rels)
